@@ -1,6 +1,7 @@
 mod c01;
 mod c02;
 mod c03;
+mod c04;
 mod c18;
 
 use vkit::Property;
@@ -39,6 +40,17 @@ fn main() {
             "factor_mask = 0 with non-empty sets is an unsound mask and is excluded, per footprints_conflict's own comment",
         ],
         subs: c03::subs,
+        max_shards: 16,
+    },
+    Property {
+        id: "C04",
+        level: "exploration",
+        rule: "proptest. (i) tick level: 1-5 consecutive generated ticks on one engine (C01 generator: node delete with incident edges, edge retype/retarget/re-parent, delete+recreate, attachment set/clear, portal opening by system rules); every committed patch must apply to the pre-state and dump/state-root equal the post-state, likewise through WorldlineTickPatchV1::apply_to_worldline_state, Engine::jump_to_tick(i) must reproduce every recorded tick, commit id must equal H(root, parents, patch digest, policy). (ii) pair level through the echo_verif diff_state hook: ordered pairs of an enumerated micro-universe (2 nodes x 2 edges x <=2 attached atoms; sampled 200k quick / 20M thorough) and pairs (a, b = 1-8 step well-formedness-preserving mutation walk from a, both directions) over full multi-instance states incl. portal open/close; oracle exactly as stated: apply(diff(a,b),a) is Ok(b) or a typed Err, Ok(other) is the violation. Non-trivial = delete+upsert of one edge id, portal/instance op, or >=3 op kinds.",
+        assumptions: &[
+            "state equality is the public-accessor dump (instances, nodes, edges by id with their from bucket, both attachment planes)",
+            "typed apply errors on arbitrary state pairs are allowed by the property and are tallied per error kind, not flagged",
+        ],
+        subs: c04::subs,
         max_shards: 16,
     },
     Property {
